@@ -1005,6 +1005,15 @@ def overlapping_same_key_subfields(rng, sv, doc):
     return d, feat
 
 
+def overlapping_typename_vs_leaf(rng, sv, doc):
+    """`zt: __typename` (String!) against a leaf of another type under mutually exclusive parents (hunt C06/3)"""
+    d = copy.deepcopy(doc)
+    feat = vo.typename_alias_construct(rng, sv, d, conflict=True)
+    if feat is None:
+        return None
+    return d, feat
+
+
 def allowed_position_multi_op(rng, sv, doc):
     """two operations share a fragment (directly or through a nested fragment) that uses `$zzm`; one operation
     declares it with an allowed type, the other with a type that is not allowed at that position (spec 5.8.5 is per
@@ -1220,6 +1229,7 @@ INJECTORS = [
     ("all_variable_usages_allowed", "5.8.5", ["VariablesInAllowedPositionChecker"], variable_usages_allowed),
     ("all_variable_usages_allowed", "5.8.5", ["VariablesInAllowedPositionChecker"], allowed_position_multi_op),
     ("overlapping_fields_can_be_merged", "5.3.2", ["OverlappingFieldsCanBeMergedChecker"], overlapping_same_key_subfields),
+    ("overlapping_fields_can_be_merged", "5.3.2", ["OverlappingFieldsCanBeMergedChecker"], overlapping_typename_vs_leaf),
     ("fields_on_correct_type", "5.3.1", ["FieldsOnCorrectTypeChecker"], stack_leak_unknown_field),
     # the same rules, violated inside `... { }` under a list / non-null field
     ("fields_on_correct_type", "5.3.1", ["FieldsOnCorrectTypeChecker"], _bare(_b_unknown_field)),
